@@ -5,6 +5,7 @@ CONSTANTS
   AppendGuard = TRUE
   FreshCookie = TRUE
   UseSecureDefault = TRUE
+  SnapshotDefault = FALSE
   Depth = 4
   Bases = {"x-a", "etag"}
   Casings = {0, 1, 17}
